@@ -1,6 +1,8 @@
 //! kvh — verification harness driving the real KyroDB engine code in-process.
 mod proto;
+mod persist;
 mod qcache;
+mod shim;
 mod store;
 mod tiered;
 
@@ -10,6 +12,7 @@ fn main() {
         Some("tiered") => tiered::run(),
         Some("qcache") => qcache::run(),
         Some("store") => store::run(),
+        Some("persist") => persist::run(),
         _ => {
             eprintln!("usage: kvh <engine>");
             std::process::exit(2);
